@@ -52,6 +52,8 @@ type frame struct {
 	retSt   []*State
 	retVals []Val
 	isTop   bool
+	cur     ssa.Instruction // the instruction being executed (site of a surfacing panic)
+	still   []*State        // panics raised by deferred calls on normal exits that leave this function
 	// per cut loop: decreases value at header, old heap
 	decr   map[*vnode]*Term
 	cutSt  map[*vnode]*State
@@ -320,8 +322,68 @@ func (vc *VC) execFunc(fn *ssa.Function, c *Contract, args []Val, bindings []Val
 	for i, fv := range fn.FreeVars {
 		entrySt.env[fv] = bindings[i]
 	}
+	var sink []*panicExit
+	handles := handlesPanics(fn) || (isTop && c != nil && len(c.OnPanic) > 0)
+	parentSink, parentOwner := vc.panicSink, vc.panicOwner
+	if handles {
+		vc.panicSink, vc.panicOwner = &sink, f
+		vc.trusted["panics as control flow: deferred calls run on panic exits with recover() live; callee panics only where the callee's contract says maypanic/panics_if"] = true
+	}
 	for _, n := range f.order {
 		f.process(n, entrySt)
+	}
+	if handles || len(f.still) > 0 {
+		var recovered, still []*State
+		if handles {
+			vc.panicSink, vc.panicOwner = parentSink, parentOwner
+			recovered, still = f.unwind(sink)
+		}
+		still = append(still, f.still...)
+		for _, ps := range still {
+			switch {
+			case isTop:
+				vc.panicOut = append(vc.panicOut, ps)
+			case parentSink != nil:
+				// the panic continues in the caller that models panics
+				site := ssa.Instruction(nil)
+				if parentOwner != nil {
+					site = parentOwner.cur
+				}
+				*parentSink = append(*parentSink, &panicExit{st: ps, site: site})
+			default:
+				// nobody above models panics: as for any other panic site
+				if vc.contract == nil || !vc.contract.MayPanic {
+					vc.oblige(ps, "panic", "false", "a panic that is not recovered leaves "+fn.Name(), fn.Pos(), false)
+				}
+			}
+		}
+		for _, rec := range recovered {
+			// a recovered panic returns normally with zero results
+			if fn.Signature.Results().Len() > 0 {
+				for i := 0; i < fn.Signature.Results().Len(); i++ {
+					if fn.Signature.Results().At(i).Name() != "" {
+						unsup("recovered panic in a function with named results")
+					}
+				}
+			}
+			var res Val
+			switch fn.Signature.Results().Len() {
+			case 0:
+			case 1:
+				res = vc.zero(fn.Signature.Results().At(0).Type())
+			default:
+				t := Tuple{}
+				for i := 0; i < fn.Signature.Results().Len(); i++ {
+					t = append(t, vc.zero(fn.Signature.Results().At(i).Type()))
+				}
+				res = t
+			}
+			f.retSt = append(f.retSt, rec)
+			f.retVals = append(f.retVals, res)
+			if f.isTop && f.c != nil && len(f.c.GhostRes) > 0 {
+				f.retGhost = append(f.retGhost, f.ghostResults(rec))
+			}
+		}
 	}
 	if len(f.retSt) == 0 {
 		return nil, nil
@@ -408,6 +470,7 @@ func (f *frame) process(n *vnode, entrySt *State) {
 		if st.dead {
 			break
 		}
+		f.cur = in
 		f.instr(n, st, in)
 	}
 	n.exit = st
@@ -875,6 +938,13 @@ func (f *frame) instr(n *vnode, st *State, in ssa.Instruction) {
 	case *ssa.Alloc:
 		t := in.Type().Underlying().(*types.Pointer).Elem()
 		st.env[in] = vc.newObject(st, t, true)
+		if r, ok := st.env[in].(*Term); ok && cellPrivate(in) {
+			// a local variable that lives in a cell only because a function literal
+			// of this function captures it: calls of other functions cannot reach it
+			for _, h := range vc.typeHeapVars(t) {
+				vc.privCells = append(vc.privCells, [2]string{h, r.S})
+			}
+		}
 	case *ssa.BinOp:
 		st.env[in] = vc.binop(st, in.Op, vc.term(st, in.X), vc.term(st, in.Y), in.Type(), in.Pos())
 	case *ssa.UnOp:
@@ -1061,10 +1131,30 @@ func (f *frame) instr(n *vnode, st *State, in ssa.Instruction) {
 			}
 			return bi.Dominates(bj)
 		})
+		if vc.panicSink != nil && len(pending) > 0 {
+			// panics are control flow: a panic raised by a deferred call on this
+			// normal exit continues with the remaining deferred calls only
+			S := f.runDefers(st.clone(), pending)
+			if S == nil {
+				st.dead = true
+				break
+			}
+			pk := S.panicking
+			if pk == "" {
+				pk = "false"
+			}
+			out := S.clone()
+			out.reach = vc.nameBool("panicout", and(S.reach, pk))
+			f.still = append(f.still, out)
+			reach := vc.nameBool("returns", and(S.reach, not(pk)))
+			*st = *S
+			st.reach, st.panicking = reach, ""
+			break
+		}
 		for k := len(pending) - 1; k >= 0 && !st.dead; k-- {
 			d := pending[k]
-			if callee := d.Call.StaticCallee(); callee != nil && usesRecover(callee) {
-				unsup("deferred function that calls recover")
+			if callee := d.Call.StaticCallee(); callee != nil && usesRecover(callee) && vc.panicSink == nil {
+				unsup("deferred function that calls recover (not in the function under contract itself)")
 			}
 			f.call(st, d, d.Common(), d.Pos())
 		}
@@ -1105,8 +1195,8 @@ func (f *frame) deferInstr(st *State, in *ssa.Defer) {
 		f.vc.trusted["sync.Mutex (mutual exclusion; critical section verified as one atomic step)"] = true
 		return
 	}
-	if callee := in.Call.StaticCallee(); callee != nil && usesRecover(callee) {
-		unsup("deferred function that calls recover")
+	if callee := in.Call.StaticCallee(); callee != nil && usesRecover(callee) && f.vc.panicSink == nil {
+		unsup("deferred function that calls recover (not in the function under contract itself)")
 	}
 	f.vc.note("deferred call " + in.Call.String() + ": executed at normal exits; its effect while a panic unwinds is not modelled")
 }
@@ -1163,6 +1253,15 @@ func reaches(b, t *ssa.BasicBlock) bool {
 
 func (f *frame) panicAt(st *State, in *ssa.Panic) {
 	vc := f.vc
+	if vc.panicSink != nil {
+		// panics are control flow in this function: the deferred calls decide
+		pv := "(mk-iface 1 0)"
+		if t, ok := vc.val(st, in.X).(*Term); ok && t.Sort == SIface {
+			pv = t.S
+		}
+		vc.raise(st, pv)
+		return
+	}
 	if vc.contract != nil && vc.contract.MayPanic {
 		st.dead = true // panics are the function's way of reporting errors
 		return
